@@ -108,8 +108,9 @@ func (e *CachedEnforcer) RemovePolicy(params ...interface{}) (bool, error) {
 
 func (e *CachedEnforcer) RemovePolicies(rules [][]string) (bool, error) {
 	if len(rules) != 0 {
-		irule := make([]interface{}, len(rules[0]))
 		for _, rule := range rules {
+			// one key buffer per rule: rules of a batch need not have the same length
+			irule := make([]interface{}, len(rule))
 			for i, param := range rule {
 				irule[i] = param
 			}
